@@ -1396,7 +1396,32 @@ GEN_TRAITS = {
 }
 class GenericsSuite(Suite):
     name = 'generics'
+    def make_union(self, r, tid):
+        # a generic union whose parameters are named like the identifiers the templates pick (hasher parameter, helpers)
+        tp = pick(r, ['X', '__H', 'H', '__H_', '__H'])
+        cp = pick(r, ['N', 'N', '__H_' if tp != '__H_' else '__H', 'H' if tp != 'H' else 'N'])
+        if r.random() < 0.5:
+            header, inst = '<%s: Copy, const %s: usize>' % (tp, cp), 'T<u8, 2>'
+        else:
+            header, inst = '<const %s: usize, %s: Copy>' % (cp, tp), 'T<2, u8>'
+        traits = r.sample(['Debug', 'PartialEq', 'Hash'], pick(r, [1, 2, 3]))
+        tattrs = ['%s(unsafe)' % tr for tr in traits]
+        if r.random() < 0.4:
+            traits += ['Clone', 'Copy']; tattrs += ['Clone', 'Copy']
+        r.shuffle(tattrs)
+        fs = [('a', tp), ('b', '[u8; %s]' % cp)] + ([('c', 'u16')] if r.random() < 0.4 else [])
+        r.shuffle(fs)
+        body = 'pub union T%s { %s }' % (header, ', '.join('pub %s: %s' % f for f in fs))
+        uses = ['{ let x: %s = T { b: [1, 2] }; %s }' % (inst, GEN_TRAITS[tr][1].replace('INST', inst)) for tr in traits]
+        t = Ty(tid, 'union', [])
+        t.raw_decl = '#[derive(Educe)]\n' + '\n'.join('#[educe(%s)]' % a for a in tattrs) + '\n' + body
+        src = ('// %s\n#![allow(dead_code, unused_variables, unused_mut, unused_imports)]\nuse crate::support::*;\n'
+               'pub mod ty {\n    #![deny(warnings)]\n    #![allow(dead_code, unused_imports)]\n    use educe::Educe;\n%s\n}\npub use ty::T;\n'
+               'pub fn run(out: &mut Out) { %s out.check(true, "%s", "compile", || String::new()); }\n' % (tid, t.raw_decl, ' '.join(uses), tid))
+        return t, src, dict(values=1, traits=traits)
     def make(self, r, tid):
+        if r.random() < 0.2:
+            return self.make_union(r, tid)
         kind = pick(r, ['struct', 'enum'])
         traits = r.sample(['Debug', 'Clone', 'PartialEq', 'Hash', 'PartialOrd'], pick(r, [1, 2, 3]))
         extra = pick(r, [None, None, 'Into', 'Deref', 'Default'])
